@@ -957,6 +957,16 @@ def c20(chk, tier, extra=None):
             continue
         tb = top_blocks(fx) if len(fx.files) == 1 else None
         fresh = (FRESH if thorough else rnd.sample(FRESH, 2)) + _mirror_blocks(fx, rnd, 5 if thorough else 3)
+        mnames = re.findall(rb"(?m)^[ \t]*MACRO[ \t]+(@[A-Za-z0-9_]+)", alltext)
+        if mnames and fx.obs["outcome"] == "ok":
+            mn = rnd.choice(mnames).decode()
+            fresh.append(("MACRO", ["MACRO @vfFreshTwice", "(", "  GET /vftwice/a", "    PASTE " + mn, "  POST /vftwice/b", "    PASTE " + mn,
+                                    "  MACRO_PLACEHOLDER"], []))
+            fresh[-1] = ("MACRO", [x for x in fresh[-1][1] if x != "  MACRO_PLACEHOLDER"] + [")"], [])
+            if len(mnames) > 1:
+                m2 = rnd.choice([x for x in mnames if x.decode() != mn] or mnames).decode()
+                fresh.append(("MACRO", ["MACRO @vfFreshLeft", "(", "  PASTE " + mn, ")", "MACRO @vfFreshRight", "(", "  PASTE " + mn, "  PASTE " + m2, ")",
+                                        "MACRO @vfFreshTop", "(", "  PASTE @vfFreshLeft", "  PASTE @vfFreshRight", ")"], []))
         for j, (kind, lines, keys) in enumerate(fresh):
             blk = fx.nl.join(x.encode() for x in lines) + fx.nl
             where = "end"
